@@ -47,7 +47,7 @@ def evolve (d : Dialect) : List TCall → DB × Option DB → Option (DB × Opti
       | "B" => evolve d rest (pub, some pub)
       | "C" => evolve d rest (work.getD pub, none)
       | "RB" => evolve d rest (pub, none)
-      | "Q" | "QA" => evolve d rest (pub, work)
+      | "Q" | "QA" | "N" => evolve d rest (pub, work)
       | "E" =>
         match parse (lex d c.text) with
         | none => none
@@ -78,9 +78,12 @@ def checkSqlw : P String := do
   expect "R"
   let status ← next
   let trace ← pTrace
-  let cancelled := (← peek?) == some "CANCEL"
+  let tail ← peek?
+  let nextFail := tail == some "NEXTFAIL"
+  let cancelled := tail == some "CANCEL" || nextFail
   let o : WriteOpts := { given := hasOpts, ifExists := ifEx, dialect := dia, batchSize := batch, typeMap := tm }
   let fa : Option Nat := if failAt < 0 then none else some failAt.toNat
+  let c20 := if status == "panic" || status == "hang" then s!"fail:{status}" else "ok"
   let own := entry < 2        -- ToSQL / ToSQLContext own the transaction
   let mut c11 := "ok"
   let mut c12 := "ok"
@@ -181,8 +184,8 @@ def checkSqlw : P String := do
             | _ => pure ()
   let ninserts := (trace.filter (fun t => t.kind == "E" && (t.text.take 6 == [73, 78, 83, 69, 82, 84]))).length
   let nontriv := ninserts ≥ 1
-  let kindS := if cancelled then "cancel" else if fa.isSome then "fault" else "plain"
-  pure s!"c11={c11} c12={c12} c13={c13} corr={corr} nontrivial={if nontriv then 1 else 0} st_kind={kindS} st_entry={entry} st_inserts={min ninserts 4} st_status={status}"
+  let kindS := if nextFail then "nextfail" else if cancelled then "cancel" else if fa.isSome then "fault" else "plain"
+  pure s!"c11={c11} c12={c12} c13={c13} c20={c20} corr={corr} nontrivial={if nontriv then 1 else 0} st_kind={kindS} st_entry={entry} st_inserts={min ninserts 4} st_status={status}"
 
 /-- `qid` engine: QuoteIdentifier against the model and the independent lexer -/
 def checkQid : P String := do
